@@ -185,7 +185,42 @@ def single_drop_recoverability(ctx: Ctx, ev: Evidence, src, dst) -> list[Finding
             out.append(Finding("C03-R2", f"product | a dropped {kind} PDU is unrecoverable",
                                f"acknowledged transfer (closure={closure}): after a single dropped {kind} PDU (source/destination steps {sorted(set(where))[:4]}) successful completion of both sides is unreachable "
                                f"in the product of the two transition systems, although no expiration limit is reached: the fault can never be recovered", ""))
-        ev.extra.setdefault("product", {})[f"acknowledged, closure={closure}"] = {"fault_free_states": n0, "states_with_single_drop": len(g2), "drop_points": len(drops), "channel_truncations": P.truncated}
+        info = {"fault_free_states": n0, "states_with_single_drop": len(g2), "drop_points": len(drops), "channel_truncations": P.truncated}
+        if ctx.tier == "thorough":
+            # K = 2: from every situation that is still recoverable after one drop, drop a second PDU
+            ev.rule("C03-R3", "thorough: after dropping any TWO PDUs (the second anywhere in the recovery from the first) completion remains reachable without a limit fault", 10)
+            allg = dict(g)
+            allg.update(g2)
+            drops2: dict = {}
+            for st in list(g2):
+                if st not in good2:
+                    continue
+                for ch, name in ((st.sd, "sd"), (st.ds, "ds")):
+                    if ch:
+                        nst = PState(st.s, st.d, st.sd[1:] if name == "sd" else st.sd, st.ds[1:] if name == "ds" else st.ds, st.bits)
+                        if nst not in allg:
+                            drops2.setdefault(nst, (ch[0][0], st))
+            g3, _ = P.explore(list(drops2), max_states=6000000, known=allg)
+            good3 = P.can_reach_goal(g3)
+            per2: dict[tuple, list[int]] = {}
+            for nst, (kind, st) in drops2.items():
+                k = (kind, step_of(src, src.h.watch(src.nodes[st.s])), step_of(dst, dst.h.watch(dst.nodes[st.d])))
+                c = per2.setdefault(k, [0, 0])
+                c[0] += 1
+                if nst not in good3:
+                    c[1] += 1
+            bad2: dict[str, list[str]] = {}
+            for (kind, ss, ds), (n, nb) in sorted(per2.items()):
+                ev.inst("C03-R3", f"closure={closure}: second drop of {kind} with source in {ss}, destination in {ds}: {n - nb} of {n} abstract situations can still complete", "ok" if nb == 0 else "violation")
+                if nb:
+                    bad2.setdefault(kind, []).append(f"{ss}/{ds}")
+            for kind, where in bad2.items():
+                if kind in bad_kinds:
+                    continue  # already unrecoverable as a single drop (reported under C03-R2)
+                out.append(Finding("C03-R3", f"product | a second dropped {kind} PDU is unrecoverable",
+                                   f"acknowledged transfer (closure={closure}): a {kind} PDU dropped during the recovery from an earlier drop (source/destination steps {sorted(set(where))[:4]}) makes successful completion unreachable although no expiration limit is reached", ""))
+            info.update({"second_drop_points": len(drops2), "states_with_two_drops": len(g3)})
+        ev.extra.setdefault("product", {})[f"acknowledged, closure={closure}"] = info
     ev.assume("product model: the link delivers PDUs in order; users retrieve every queued PDU after every call; bursts of equal PDUs are collapsed; channels hold at most 3 distinct consecutive PDUs (longer backlogs are cut)")
     ev.assume("premise of C03: every expiration limit exceeds the number of faults, so paths that declare a limit fault are excluded")
     return out
